@@ -252,7 +252,9 @@ func (f *Formatter) formatIfStatement(stmt *ast.IfStatement) string {
 	}
 
 	buf.WriteString(f.formatBlockStatement(stmt.Consequence))
-	if v := f.formatComment(stmt.Consequence.Trailing, "", 0); v != "" {
+	// The trailing comment of the last block is printed by formatStatement() as the statement's trailing comment
+	isLastBlock := len(stmt.Another) == 0 && stmt.Alternative == nil
+	if v := f.formatComment(stmt.Consequence.Trailing, "", 0); v != "" && !isLastBlock {
 		// If comment is inline , concat to the same line
 		if isInlineComment(stmt.Consequence.Trailing) {
 			buf.WriteString(" " + v)
